@@ -33,11 +33,11 @@ PATH_MUTATORS = {"create_dir", "create_dir_all", "create_file", "append_file", "
                  "set_modification_time", "set_access_time"}
 
 
-def marker_rules(facts, rep, w, prefix=None):
+def marker_rules(facts, rep, w, prefix=None, only=None):
     ov = Overlay(facts, w)
     n = 0
     if prefix:
-        rep = _Prefixed(rep, prefix)
+        rep = _Prefixed(rep, prefix, only)
     # ---- R10.1
     for op in ("remove_file", "remove_dir"):
         b = ov.ops.get(op)
@@ -194,17 +194,22 @@ def marker_rules(facts, rep, w, prefix=None):
 class _Prefixed:
     """report view that files every obligation under one rule id (for re-use by other properties)"""
 
-    def __init__(self, rep, prefix):
+    def __init__(self, rep, prefix, only=None):
         self._rep = rep
         self._prefix = prefix
+        self._only = only
 
     def ob(self, rule, fn, desc, ok, detail="", loc=None):
+        if self._only and rule not in self._only:
+            return None
         return self._rep.ob("%s/%s" % (self._prefix, rule), fn, desc, ok, detail, loc)
 
     def fail(self, rule, fn, desc, detail="", loc=None):
-        return self._rep.ob("%s/%s" % (self._prefix, rule), fn, desc, False, detail, loc)
+        return self.ob(rule, fn, desc, False, detail, loc)
 
     def floor(self, name, measured, floor):
+        if self._only:
+            return None
         return self._rep.floor("%s (%s)" % (name, self._prefix), measured, floor)
 
     def note(self, t):
